@@ -4,8 +4,10 @@ import (
 	"context"
 	"errors"
 	"fmt"
+	"runtime"
 	"strings"
 	"sync/atomic"
+	"time"
 
 	wire "github.com/jeroenrinzema/psql-wire"
 	"github.com/jeroenrinzema/psql-wire/codes"
@@ -38,6 +40,9 @@ type c19conn struct {
 	term      atomic.Int32
 	parses    int
 	execs     int
+	// a slow terminate hook / a statement held by the harness (both optional)
+	hookGate, hookEntered chan struct{}
+	stmtGate, stmtEntered chan struct{}
 }
 
 type c19cfg struct {
@@ -94,7 +99,15 @@ func (ch c19) server(cfg c19cfg) *hs.Env {
 	}
 	if cfg.Hook {
 		opts = append(opts, wire.TerminateConn(func(ctx context.Context) error {
-			hs.ConnOf(ctx).User.(*c19conn).term.Add(1)
+			st := hs.ConnOf(ctx).User.(*c19conn)
+			st.term.Add(1)
+			if st.hookGate != nil {
+				st.hookEntered <- struct{}{}
+				select {
+				case <-st.hookGate:
+				case <-time.After(20 * time.Second):
+				}
+			}
 			return nil
 		}))
 	}
@@ -140,6 +153,13 @@ func (ch c19) server(cfg c19cfg) *hs.Env {
 			defer check(ctx, "statement exit")
 			if query == "stmtfail" {
 				return errors.New("scripted statement failure")
+			}
+			if query == "held" && st.stmtGate != nil {
+				st.stmtEntered <- struct{}{}
+				select {
+				case <-st.stmtGate:
+				case <-time.After(20 * time.Second):
+				}
 			}
 			return w.Complete("OK")
 		})), nil
@@ -334,17 +354,60 @@ func (ch c19) runConn(c *core.Ctx, env *hs.Env, cfg c19cfg, ending string, rng *
 		}
 	}
 	// ending
-	switch ending {
-	case "terminate":
+	if ending == "terminate" && cfg.Hook && !cfg.Auth && rng.Intn(3) == 0 {
+		// the terminate hook takes its time; meanwhile another connection is accepted and served: it
+		// keeps its own traffic, its callbacks keep their own context, also once the hook has returned
+		st.hookGate, st.hookEntered = make(chan struct{}), make(chan struct{}, 1)
 		cl.C.Send(pg.Terminate())
-	case "terminate-pipelined":
-		cl.C.Send(append(pg.Query("ok"), pg.Terminate()...))
-	case "terminate-while-skipping":
-		// a failed extended message leaves the session discarding until Sync; Terminate must still work
-		cl.C.Send(append(append(pg.Parse("", "fail", nil), pg.Bind("", "", nil, nil, nil)...), pg.Terminate()...))
-	case "eof":
-		cl.C.CloseWrite()
-		c.Count("eof_endings", 1)
+		select {
+		case <-st.hookEntered:
+		case <-time.After(20 * time.Second):
+			viol("terminate-hook", "terminate hook not invoked for a Terminate message", "")
+			return
+		}
+		stB := &c19conn{stmtGate: make(chan struct{}), stmtEntered: make(chan struct{}, 1)}
+		b := hs.NewClient(env.Dial(stB))
+		b.C.Send(pg.Startup([][2]string{{"options", ""}, {"user", "lifecycle"}, {"application_name", ""}, {"database", "db"}}))
+		b.C.Quiesce()
+		b.C.Send(pg.Query("held"))
+		select {
+		case <-stB.stmtEntered:
+		case <-time.After(20 * time.Second):
+			viol("neighbour", "a connection accepted while another connection's terminate hook runs is not served", replyKinds(b.C.Out()))
+			close(st.hookGate)
+			return
+		}
+		parsesA := st.parses
+		close(st.hookGate) // the hook of the terminated connection returns
+		for i := 0; i < 50; i++ {
+			runtime.Gosched()
+		}
+		time.Sleep(2 * time.Millisecond)
+		b.C.Send(pg.Query("ok")) // pipelined behind the statement that is still running
+		close(stB.stmtGate)
+		b.C.Quiesce()
+		if k := pg.Types(mustMsgs(b.C.OutFrom(0))); !strings.HasSuffix(k, "CZCZ") || stB.parses != 2 || st.parses != parsesA {
+			viol("neighbour", "a connection served while another connection terminates lost a message or had it handled under the other connection", fmt.Sprintf("its reply: %s; its parser calls: %d (2 sent); parser calls under the terminated connection since Terminate: %d", replyKinds(b.C.Out()), stB.parses, st.parses-parsesA))
+		}
+		if len(stB.problems) > 0 {
+			viol("context", stB.problems[0], fmt.Sprint(stB.problems))
+		}
+		b.C.CloseWrite()
+		b.C.WaitClosed()
+		c.Count("connections_served_during_terminate_hook", 1)
+	} else {
+		switch ending {
+		case "terminate":
+			cl.C.Send(pg.Terminate())
+		case "terminate-pipelined":
+			cl.C.Send(append(pg.Query("ok"), pg.Terminate()...))
+		case "terminate-while-skipping":
+			// a failed extended message leaves the session discarding until Sync; Terminate must still work
+			cl.C.Send(append(append(pg.Parse("", "fail", nil), pg.Bind("", "", nil, nil, nil)...), pg.Terminate()...))
+		case "eof":
+			cl.C.CloseWrite()
+			c.Count("eof_endings", 1)
+		}
 	}
 	if closed, ok := cl.C.Quiesce(); !ok {
 		cl.Hung = true
